@@ -2,7 +2,8 @@ package main
 
 // C03: ast <hex text> [tree tokens for the model side, ignored here]
 //
-// Parses the text into a fresh module set and prints "err" or "ok" followed by one canonical dump per
+// Parses the text into a fresh module set and prints "err L:C" (the line:column prefix of the error
+// message, "err nopos" when the message has none) or "ok" followed by one canonical dump per
 // module/submodule that was filed, in source order.  The dump is a reflection walk over the node
 // structs (not the Node methods), driven by the same `yang:"…"` tags the builder uses:
 //
@@ -16,6 +17,7 @@ package main
 
 import (
 	"reflect"
+	"regexp"
 	"sort"
 	"strconv"
 	"strings"
@@ -24,6 +26,8 @@ import (
 )
 
 var c03StatementType = reflect.TypeOf(&yang.Statement{})
+
+var c03PosRe = regexp.MustCompile(`^t\.yang:(\d+):(\d+):`)
 
 func c03Pos(s *yang.Statement) (int, int) {
 	p := strings.Split(s.Location(), ":")
@@ -118,7 +122,11 @@ func init() {
 		text := string(unhex(t[0]))
 		ms := yang.NewModules()
 		if err := ms.Parse(text, "t.yang"); err != nil {
-			return "err"
+			// position prefix of the error, if it has one
+			if m := c03PosRe.FindStringSubmatch(err.Error()); m != nil {
+				return "err " + m[1] + ":" + m[2]
+			}
+			return "err nopos"
 		}
 		seen := map[*yang.Module]bool{}
 		var mods []*yang.Module
